@@ -358,9 +358,46 @@ fn long_lived_seq(rng: &mut Rng, sends: usize, sync: u64) -> Vec<Op> {
     ops
 }
 
+/// LONG RUN on one bus: two outputs pull 70 000 frames in lock-step (the backlog empties every round), then the lead
+/// changes hands repeatedly, an output is dropped while behind and a new one attached: frames, pending counts and the
+/// source's pull count against plain counters (oracle only; whatever positions or generations an implementation
+/// keeps must not wrap or be rebased into a wrong answer)
+fn long_run(st: &mut Stream) {
+    let salt = 5000i64;
+    let case = "bus over an infinite counting source: outputs a and b pull 70000 frames in lock-step (a first), then b takes the lead by 2, a catches up, a leads by 3, b catches up, ... (200 changes of lead), then b is dropped while behind and c attached";
+    mark(0, case);
+    let log = Rc::new(RefCell::new(Vec::<i64>::new()));
+    let r = guarded(|| {
+        let bus = Src { salt, len: None, log: log.clone() }.bus();
+        let (mut a, mut b) = (bus.send(), bus.send());
+        let (mut ca, mut cb) = (0usize, 0usize);         // frames received so far
+        let mut bad: Option<String> = None;
+        macro_rules! pull { ($o:ident, $c:ident, $who:expr) => { { let f = $o.next()[0]; if f != salt + $c as i64 && bad.is_none() { bad = Some(format!("output {} received {} as its frame #{}, expected {}", $who, f, $c, salt + $c as i64)); } $c += 1; } } }
+        macro_rules! pend { () => { { let pulled = log.borrow().len(); let (pa, pb) = (a.pending_frames(), b.pending_frames()); if (pa != pulled - ca || pb != pulled - cb || pulled != ca.max(cb)) && bad.is_none() { bad = Some(format!("after a received {} and b {} frames: pending a {} b {} with {} source pulls, expected {} / {} / {}", ca, cb, pa, pb, pulled, ca.max(cb) - ca, ca.max(cb) - cb, ca.max(cb))); } } } }
+        for _ in 0..70_000 { pull!(a, ca, "a"); pull!(b, cb, "b"); }
+        pend!();
+        for round in 0..200usize {
+            let lead = 1 + round % 4;
+            if round % 2 == 0 { for _ in 0..lead { pull!(b, cb, "b"); } pend!(); while ca < cb { pull!(a, ca, "a"); } }
+            else { for _ in 0..lead { pull!(a, ca, "a"); } pend!(); while cb < ca { pull!(b, cb, "b"); } }
+            pend!();
+        }
+        for _ in 0..5 { pull!(a, ca, "a"); }
+        drop(b);
+        let mut c = bus.send();
+        let mut cc = ca;                                     // c begins with the first frame nobody had pulled when it was attached
+        for _ in 0..10 { pull!(c, cc, "c"); pull!(a, ca, "a"); }
+        if log.borrow().len() != ca.max(cc) && bad.is_none() { bad = Some(format!("{} source pulls for {} distinct frames", log.borrow().len(), ca.max(cc))); }
+        bad
+    });
+    st.count("long_run_70000_frames_then_changes_of_lead");
+    match r { Some(None) => st.oracle_ok(141_000), Some(Some(b)) => st.oracle_fail("long run on one bus", case, "", &b), None => st.oracle_fail("long run on one bus panicked", case, "no panic", "panic") }
+}
+
 pub fn run(a: &Args) {
     let mut st = Stream::new(&a.out, "bus");
     let mut rng = Rng::new(a.seed, "bus");
+    long_run(&mut st);
     // ---- exhaustive over the alphabet {send, next i, drop i, drop the Bus handle}, infinite source,
     //      and {…, until_exhausted i} on a finite source of 2 frames; at most 3 simultaneously live outputs
     let depth = if a.thorough() { 9 } else { 7 };
